@@ -30,6 +30,7 @@ enum
     K_STEP_WRITER,
     K_PREWAIT,
     K_LAZY,
+    K_PRELOCK,
     K_COUNT
 };
 
@@ -38,6 +39,7 @@ const VhKindSpec kKinds[K_COUNT] = {
     { "W_COMMIT", 4, 0, 0, 0, 0 },         { "W_ABORT", 2, 0, 0, 0, 0 },         { "R_READ", 10, 255, 65535, 0, 0 },
     { "R_MAP", 5, 255, 0, 0, 0 },          { "R_UNMAP", 5, 255, 65535, 0, 0 },   { "ACCEPT", 2, 1, 0, 0, 0 },
     { "STEP_WRITER", 2, 0, 0, 0, 0 },      { "PREWAIT", 1, 1, 0, 0, 0 },         { "LAZY", 1, 1, 0, 0, 0 },
+    { "PRELOCK", 1, 1, 0, 0, 0 },
 };
 
 enum
@@ -64,6 +66,10 @@ enum
     CL_OVERCONSUME,
     CL_NO_READER_WRAP,
     CL_CAUGHT_UP_AT_WRAP,
+    CL_PRELOCK_HIT,
+    CL_JOIN_IN_PRELOCK,
+    CL_DOUBLE_MAP,
+    CL_DOUBLE_MAP_WRITER_ASLEEP,
 };
 
 const VhSpec kSpec = {
@@ -76,7 +82,8 @@ const VhSpec kSpec = {
       "writer_released_by_unmap", "writer_released_by_refusal", "prewait_pause_hit", "refusal_inside_check_sleep_window",
       "write_ends_exactly_at_buffer_end", "write_ends_exactly_at_slowest_cursor", "tight_write", "readers_ge3",
       "reader_holds_mapping_across_write", "empty_read", "late_join", "null_because_refused", "consume_more_than_mapped",
-      "wrap_without_readers", "reader_caught_up_at_wrap", nullptr },
+      "wrap_without_readers", "reader_caught_up_at_wrap", "writer_paused_before_taking_the_lock",
+      "first_read_of_a_reader_while_writer_paused_before_lock", "map_while_mapped_refused", "map_while_mapped_with_writer_asleep", nullptr },
     { "C01 non-trivial: >=1 wrap-around while >=1 reader is registered AND (a partial consume, or >=2 readers with different cursors "
       "at a wrap, or an aborted write after a wrap); distinct = distinct decoded operation sequence",
       "C02 non-trivial: a write placed when free space < 2*n while a reader lags or holds a mapping, or a write ending exactly at the "
@@ -97,6 +104,8 @@ struct Reader
     uint64_t next = 0;   // global offset of the first unconsumed byte
     uint64_t joined_G = 0;
     uint64_t map_start = 0; // global offset of the mapped slice
+    bool refused = false;   // mapped again while mapped: the channel refused, moved its bookmark to the writer's
+                            // head and still expects one unmap (of 0 bytes) before the next map
 };
 
 struct Ctx
@@ -128,6 +137,8 @@ struct Ctx
     bool any_region = false;
     bool wrapped_since_abort_check = false;
     bool prewait = false, lazy = false;
+    bool prelock = false;              // pause the writer at its first lock call inside write_map (once per call)
+    bool prelock_done = false, paused_prelock = false;
     bool was_blocked = false;          // writer observed asleep during the current map
     bool paused_in_window = false;
     bool refusal_in_window = false;
@@ -451,6 +462,15 @@ run_writer(Ctx& x, bool stop_prewait)
         const vsim::Info& wi = vsim::info(x.wf);
         if (wi.st != vsim::RUNNABLE)
             break;
+        if (wi.op == vsim::OP_LOCK && x.wstate == Ctx::W_INSIDE && x.prelock && !x.prelock_done) {
+            // the writer is about to take the channel lock at the entry of write_map: anything it
+            // looked at before this point was read without the lock
+            x.prelock_done = true;
+            x.paused_prelock = true;
+            x.c.cls(CL_PRELOCK_HIT);
+            return true;
+        }
+        x.paused_prelock = false;
         if (wi.op == vsim::OP_WAIT && x.wstate == Ctx::W_INSIDE) {
             if (stop_prewait) {
                 if (!x.paused_in_window)
@@ -502,6 +522,8 @@ writer_cmd(Ctx& x, int cmd)
         x.was_blocked = false;
         x.refused_during_map = false;
         x.paused_in_window = false;
+        x.prelock_done = false;
+        x.paused_prelock = false;
         run_writer(x, x.prewait);
     } else {
         while (vsim::info(x.wf).st == vsim::RUNNABLE)
@@ -637,6 +659,8 @@ do_read_map(Ctx& x, int ri)
     bool fresh = r.r.id == 0;
     if (fresh)
         r.joined_G = G(x);
+    if (fresh && x.paused_prelock && x.wstate == Ctx::W_INSIDE)
+        x.c.cls(CL_JOIN_IN_PRELOCK);
     exec_op(x, 1, ri, 0, 0);
     if (x.c.ended)
         return;
@@ -670,6 +694,62 @@ do_read_unmap(Ctx& x, int ri, unsigned mode, unsigned v)
     r.next += std::min(k, r.len);
     r.mapped = false;
     r.len = 0;
+    after_op(x, false, true);
+}
+
+// read_map on a reader that is still mapped (see the R_MAP case).  Nothing is asserted about the
+// refused call itself beyond what the properties say: the reader gives up its region and everything
+// committed so far, so from the writer's point of view it has consumed everything (C03), and its
+// stream restarts at the current end (C01 applies again from there).
+void
+do_double_map(Ctx& x, int ri)
+{
+    Reader& r = x.rd[ri];
+    bool asleep = x.wstate == Ctx::W_INSIDE && vsim::info(x.wf).st == vsim::BLK_COND;
+    x.c.cls(CL_DOUBLE_MAP);
+    if (asleep) {
+        x.c.cls(CL_DOUBLE_MAP_WRITER_ASLEEP);
+        x.c.nontrivial(2);
+    }
+    x.c.mix(0x480 + ri);
+    x.c.trace("R_MAP reader=%d while it is still mapped (refused by the channel)%s", ri, asleep ? "   [writer asleep]" : "");
+    if (r.mapped)
+        before_unmap(x, ri);
+    if (x.c.ended)
+        return;
+    exec_op(x, 1, ri, 0, 0);
+    if (x.c.ended)
+        return;
+    slice s = x.xslice;
+    size_t len = (s.beg && s.end > s.beg) ? (size_t)(s.end - s.beg) : 0;
+    x.c.trace("    reader %d: status %d, %zu bytes", ri, (int)r.r.status, len);
+    if (r.r.status != Channel_Expected_Unmapped_Reader || len != 0) {
+        // not the refusal path after all (a change made it hand out data): judge it as a normal map
+        r.mapped = false;
+        r.refused = false;
+        check_read_slice(x, ri, s);
+        if (!x.c.ended)
+            after_op(x, false, false);
+        return;
+    }
+    r.r.status = Channel_Ok; // the error is spent (acquire.c does the same)
+    r.mapped = false;        // the region is no longer protected
+    r.len = 0;
+    r.refused = true;
+    r.known = true;
+    r.next = G(x);
+    after_op(x, false, true); // the bookmark moved to the head: space was released
+}
+
+void
+do_unmap_after_refusal(Ctx& x, int ri)
+{
+    Reader& r = x.rd[ri];
+    x.c.trace("R_UNMAP reader=%d consumed=0 (after the refused map)", ri);
+    exec_op(x, 2, ri, 0, 0);
+    if (x.c.ended)
+        return;
+    r.refused = false;
     after_op(x, false, true);
 }
 
@@ -781,8 +861,20 @@ vh_run(const VhTok* tape, size_t n, VhReport* rep)
                 if (x.nreaders >= 3)
                     x.c.cls(CL_READERS_GE3);
                 Reader& r = x.rd[ri];
-                if (r.mapped)
-                    break; // a well-formed reader does not map twice
+                if (r.mapped || r.refused) {
+                    // A well-formed reader does not map twice, but the state is reachable (acquire_stop's
+                    // monitor flush can collide with a polling client): the channel refuses, moves the
+                    // reader's bookmark to the writer's head -- which releases space -- and the reader
+                    // owes one unmap.  Generated from R_MAP tokens only, and only in the shape the runtime
+                    // can reach: the reader's region ends at the committed end (it mapped everything), it
+                    // was not refused already, and the owed unmap consumes 0 bytes.  (Other shapes are
+                    // caller misuse whose consequences no listed property speaks about: e.g. a refused
+                    // reader whose stale region end coincides with the head one lap later is put back a
+                    // lap by its unmap.)
+                    if (kind == K_R_MAP && (t.a / 9) % 2 == 0 && r.mapped && !r.refused && r.map_start + r.len == G(x))
+                        do_double_map(x, ri);
+                    break;
+                }
                 x.c.mix(0x400 + kind * 16 + ri);
                 x.c.trace("%s reader=%d%s", kind == K_R_READ ? "R_READ" : "R_MAP", ri, r.r.id == 0 ? "  (joins)" : "");
                 do_read_map(x, ri);
@@ -801,6 +893,11 @@ vh_run(const VhTok* tape, size_t n, VhReport* rep)
                 if (!x.nreaders)
                     break;
                 int ri = t.a % x.nreaders;
+                if (x.rd[ri].refused) {
+                    x.c.mix(0x580 + ri);
+                    do_unmap_after_refusal(x, ri);
+                    break;
+                }
                 if (!x.rd[ri].mapped)
                     break;
                 x.c.mix(0x500 + ri);
@@ -843,6 +940,10 @@ vh_run(const VhTok* tape, size_t n, VhReport* rep)
                 x.lazy = t.a & 1;
                 x.c.mix(0x900 + x.lazy);
                 break;
+            case K_PRELOCK:
+                x.prelock = t.a & 1;
+                x.c.mix(0xa00 + x.prelock);
+                break;
         }
         if (vsim::error() && !x.c.ended)
             x.c.fail("C03", "platform-misuse", "vsim", "%s", vsim::error());
@@ -853,6 +954,7 @@ vh_run(const VhTok* tape, size_t n, VhReport* rep)
         x.c.trace("END: accept writes, finish the writer, drain every reader");
         x.lazy = false;
         x.prewait = false;
+        x.prelock = false;
         exec_op(x, 3, 0, 0, 1);
         x.accepting = true;
         if (!x.c.ended)
@@ -864,6 +966,8 @@ vh_run(const VhTok* tape, size_t n, VhReport* rep)
             }
             for (int ri = 0; ri < x.nreaders && !x.c.ended; ++ri) {
                 Reader& r = x.rd[ri];
+                if (r.refused)
+                    do_unmap_after_refusal(x, ri);
                 if (r.mapped)
                     do_read_unmap(x, ri, 0, 0);
                 // "readers that keep reading reach the drained state in a bounded number of calls"
